@@ -289,4 +289,180 @@ theorem gr_fca_list (inp ds : List (List Nat)) (k m n : Nat) (qs : List Modulus)
   simp only [gr_ok_bind]
   rw [List.take_zero, List.nil_append, Nat.zero_add, List.drop_eq_nil_of_le (by omega), List.append_nil]
 
+/-! ### `RNSTool::fast_floor` (the conversion q → Bsk is an abstract function input `F`; the correction loop rewrites the destination in place) -/
+
+theorem gr_slice_take (n : Nat) (cs : List (List Nat)) (s : Nat) (h : ∀ c ∈ cs, c.length = n) (hs : s ≤ cs.length) :
+    GenR.slice cs.flatten 0 (s * n) = .ok (cs.take s).flatten := by
+  have hl := gr_flat_length n cs h
+  have hlt := gr_flat_length n (cs.take s) (fun c hc => h c (List.mem_of_mem_take hc))
+  rw [List.length_take, Nat.min_eq_left hs] at hlt
+  unfold GenR.slice
+  rw [if_pos ⟨by omega, by rw [hl]; exact Nat.mul_le_mul_right n hs⟩, List.drop_zero, Nat.sub_zero]
+  congr 1
+  conv => lhs; rw [← List.take_append_drop s cs, List.flatten_append]
+  rw [List.take_left' hlt]
+
+theorem gr_slice_drop (n : Nat) (cs : List (List Nat)) (s : Nat) (h : ∀ c ∈ cs, c.length = n) (hs : s ≤ cs.length) :
+    GenR.slice cs.flatten (s * n) cs.flatten.length = .ok (cs.drop s).flatten := by
+  have hl := gr_flat_length n cs h
+  have hlt := gr_flat_length n (cs.take s) (fun c hc => h c (List.mem_of_mem_take hc))
+  rw [List.length_take, Nat.min_eq_left hs] at hlt
+  have hle : s * n ≤ cs.length * n := Nat.mul_le_mul_right n hs
+  unfold GenR.slice
+  rw [if_pos ⟨by omega, Nat.le_refl _⟩]
+  congr 1
+  rw [List.take_of_length_le (by rw [List.length_drop])]
+  conv => lhs; rw [← List.take_append_drop s cs, List.flatten_append]
+  rw [List.drop_left' hlt]
+
+/-- the fold when step `i` reads only component `i` of the current list -/
+theorem gr_foldM_self (comp : Nat → List Nat → R (List Nat)) :
+    ∀ k i (cs : List (List Nat)), i + k ≤ cs.length →
+      gr_foldM (fun i cs => comp i (cs.getD i [])) k i cs
+        = ((List.range' i k).mapM (fun i' => comp i' (cs.getD i' [])) >>= fun outs => .ok (cs.take i ++ outs ++ cs.drop (i + k))) := by
+  intro k
+  induction k with
+  | zero => intro i cs _; rw [gr_foldM, List.range'_zero, gr_mapM_nil, gr_ok_bind, List.append_nil, Nat.add_zero, List.take_append_drop]
+  | succ k ih =>
+    intro i cs hik
+    rw [gr_foldM, List.range'_succ, gr_mapM_cons]
+    cases hci : comp i (cs.getD i []) with
+    | error e => rfl
+    | ok c =>
+      rw [gr_ok_bind, gr_ok_bind, ih (i+1) (cs.set i c) (by rw [List.length_set]; omega)]
+      have hcg : (List.range' (i+1) k).mapM (fun i' => comp i' ((cs.set i c).getD i' [])) = (List.range' (i+1) k).mapM (fun i' => comp i' (cs.getD i' [])) := by
+        apply gr_mapM_congr
+        intro i' hi'
+        rw [List.mem_range'_1] at hi'
+        rw [gr_getD_set_ne _ _ _ _ _ (by omega)]
+      rw [hcg]
+      cases (List.range' (i+1) k).mapM (fun i' => comp i' (cs.getD i' [])) with
+      | error e => rfl
+      | ok outs =>
+        rw [gr_ok_bind, gr_ok_bind, gr_ok_bind]
+        have e2 : i + (k + 1) = i + 1 + k := by omega
+        have hi : i < cs.length := by omega
+        have ht : (cs.set i c).take (i + 1) = cs.take i ++ [c] := by
+          rw [List.take_succ_eq_append_getElem (by rw [List.length_set]; exact hi), List.getElem_set_self, List.take_set_of_le (Nat.le_refl i)]
+        rw [e2, ht, List.drop_set_of_lt (by omega)]
+        simp
+
+/-- one coefficient of `fast_floor`: `(x + (b − d)) · q⁻¹ mod b` with the checked `b − d`, `x + …` -/
+def gr_ffElt (b : Modulus) (inv : MulOperand) (x d : Nat) : R Nat :=
+  ckSub b.value d >>= fun nd => ckAdd x nd >>= fun s => mulOperandMod s inv b
+
+theorem gr_ff_loop2 (in2 cs : List (List Nat)) (sB n i : Nat) (bs : List Modulus) (invs : List MulOperand)
+    (hi : i < sB) (hsn : sB * n < 2^64) (hin2 : in2.length = sB) (hin : ∀ c ∈ in2, c.length = n)
+    (hcs : cs.length = sB) (hcn : ∀ c ∈ cs, c.length = n) (hbs : bs.length = sB) (hinv : sB ≤ invs.length) :
+    GenR.fast_floor_loop2 in2.flatten n i bs invs n 0 cs.flatten
+      = ((List.range' 0 n).mapM (fun j => gr_ffElt (bs.getD i gr_dflt) (invs.getD i default) ((in2.getD i []).getD j 0) ((cs.getD i []).getD j 0))
+          >>= fun d => .ok (cs.set i d).flatten) := by
+  have hfi := gr_flat_length n in2 hin
+  rw [hin2] at hfi
+  have hfd := gr_flat_length n cs hcn
+  rw [hcs] at hfd
+  have hin1 : i * n + n ≤ sB * n := by
+    have := Nat.mul_le_mul_right n (Nat.succ_le_of_lt hi); rw [Nat.succ_mul] at this; exact this
+  rw [gr_offloop (GenR.fast_floor_loop2 in2.flatten n i bs invs)
+      (fun j old => gr_ffElt (bs.getD i gr_dflt) (invs.getD i default) ((in2.getD i []).getD j 0) old) (i * n) n (fun _ _ => rfl) (by
+      intro k j l hl hj
+      have e1 : ckMul i n = .ok (i * n) := gr_ckMul_ok (by omega)
+      have e2 : ckAdd (i * n) j = .ok (i * n + j) := gr_ckAdd_ok (by omega)
+      have hlt : i * n + j < in2.flatten.length := by omega
+      have e3 : GenW.idx in2.flatten (i * n + j) = .ok ((in2.getD i []).getD j 0) := by
+        rw [gw_idx_eq _ _ hlt, ← gr_getD_of_lt _ _ hlt, gr_flat_getD n in2 i j hin (by omega) hj]
+      have e4 : GenR.idxMod bs i = .ok (bs.getD i gr_dflt) := gr_idxMod_ok bs i _ (by omega)
+      have e5 : GenR.idxOp invs i = .ok (invs.getD i default) := gr_idxOp_ok invs i _ (by omega)
+      rw [GenR.fast_floor_loop2]
+      simp only [e1, e2, e3, e4, e5, gw_idx_eq _ _ hl, gw_multiply_u64operand_mod_eq, gr_ok_bind]
+      unfold gr_ffElt
+      cases ckSub (bs.getD i gr_dflt).value l[i * n + j] with
+      | error e => rfl
+      | ok nd =>
+        simp only [gr_ok_bind]
+        cases ckAdd ((in2.getD i []).getD j 0) nd with
+        | error e => rfl
+        | ok s =>
+          simp only [gr_ok_bind, gr_mulOperandMod, gx_setIdx_ok _ _ _ hl])
+    n 0 cs.flatten (by omega) (by omega)]
+  have hcg : (List.range' 0 n).mapM (fun j' => gr_ffElt (bs.getD i gr_dflt) (invs.getD i default) ((in2.getD i []).getD j' 0) (cs.flatten.getD (i * n + j') 0))
+      = (List.range' 0 n).mapM (fun j => gr_ffElt (bs.getD i gr_dflt) (invs.getD i default) ((in2.getD i []).getD j 0) ((cs.getD i []).getD j 0)) := by
+    apply gr_mapM_congr
+    intro j hj
+    rw [List.mem_range'_1] at hj
+    rw [gr_flat_getD n cs i j hcn (by omega) (by omega)]
+  rw [hcg]
+  cases hm : (List.range' 0 n).mapM (fun j => gr_ffElt (bs.getD i gr_dflt) (invs.getD i default) ((in2.getD i []).getD j 0) ((cs.getD i []).getD j 0)) with
+  | error e => rfl
+  | ok d =>
+    have hdl : d.length = n := by rw [gr_mapM_length _ _ _ hm, List.length_range']
+    rw [gr_ok_bind, gr_ok_bind, Nat.add_zero, ← gr_splice_flat n cs i d hcn (by omega) hdl]
+    unfold GenR.splice
+    rw [hdl]
+
+def gr_ffComp (b : Modulus) (inv : MulOperand) (n : Nat) (xi ci : List Nat) : R (List Nat) :=
+  (List.range' 0 n).mapM (fun j => gr_ffElt b inv (xi.getD j 0) (ci.getD j 0))
+
+theorem gr_ff_loop (in2 : List (List Nat)) (sB n : Nat) (bs : List Modulus) (invs : List MulOperand)
+    (hsn : sB * n < 2^64) (hin2 : in2.length = sB) (hin : ∀ c ∈ in2, c.length = n) (hbs : bs.length = sB) (hinv : sB ≤ invs.length) :
+    ∀ k i (cs : List (List Nat)), i + k = sB → cs.length = sB → (∀ c ∈ cs, c.length = n) →
+      GenR.fast_floor_loop1 in2.flatten sB n bs invs k i cs.flatten
+        = (gr_foldM (fun i cs => gr_ffComp (bs.getD i gr_dflt) (invs.getD i default) n (in2.getD i []) (cs.getD i [])) k i cs >>= fun cs' => .ok cs'.flatten) := by
+  intro k
+  induction k with
+  | zero => intro i cs _ _ _; rfl
+  | succ k ih =>
+    intro i cs hik hcs hcn
+    rw [GenR.fast_floor_loop1, gr_foldM, gr_ff_loop2 in2 cs sB n i bs invs (by omega) hsn hin2 hin hcs hcn hbs hinv]
+    unfold gr_ffComp
+    cases hm : (List.range' 0 n).mapM (fun j => gr_ffElt (bs.getD i gr_dflt) (invs.getD i default) ((in2.getD i []).getD j 0) ((cs.getD i []).getD j 0)) with
+    | error e => rfl
+    | ok d =>
+      have hdl : d.length = n := by rw [gr_mapM_length _ _ _ hm, List.length_range']
+      simp only [gr_ok_bind]
+      have := ih (i + 1) (cs.set i d) (by omega) (by rw [List.length_set]; exact hcs) (gr_set_length_mem n cs i d hcn hdl)
+      unfold gr_ffComp at this
+      exact this
+
+/-- the generated `fast_floor` on flat buffers (`sq + sB` input components, `sB` destination components); `F` = the q → Bsk conversion -/
+theorem gr_ff_list (inp ds : List (List Nat)) (sq sB n : Nat) (bs : List Modulus) (invs : List MulOperand) (F : List Nat → List Nat → R (List Nat))
+    (hinp : inp.length = sq + sB) (hin : ∀ c ∈ inp, c.length = n) (hbs : bs.length = sB) (hinv : sB ≤ invs.length)
+    (hsn : (sq + sB) * n < 2^64) :
+    (∀ e, F (inp.take sq).flatten ds.flatten = .error e → GenR.fast_floor inp.flatten ds.flatten sq sB n bs invs F = .error e) ∧
+    (∀ conv : List (List Nat), conv.length = sB → (∀ c ∈ conv, c.length = n) → F (inp.take sq).flatten ds.flatten = .ok conv.flatten →
+      GenR.fast_floor inp.flatten ds.flatten sq sB n bs invs F =
+        ((List.range' 0 sB).mapM (fun i => gr_ffComp (bs.getD i gr_dflt) (invs.getD i default) n (inp.getD (sq + i) []) (conv.getD i []))
+          >>= fun outs => .ok outs.flatten)) := by
+  have hfi := gr_flat_length n inp hin
+  rw [hinp] at hfi
+  have h1 : sq * n ≤ (sq + sB) * n := Nat.mul_le_mul_right n (by omega)
+  have h2 : sB * n ≤ (sq + sB) * n := Nat.mul_le_mul_right n (by omega)
+  have e1 : ckMul sq n = .ok (sq * n) := gr_ckMul_ok (by omega)
+  have e2 : GenR.slice inp.flatten 0 (sq * n) = .ok (inp.take sq).flatten := gr_slice_take n inp sq hin (by omega)
+  have e3 : GenR.slice inp.flatten (sq * n) inp.flatten.length = .ok (inp.drop sq).flatten := gr_slice_drop n inp sq hin (by omega)
+  constructor
+  · intro e he
+    unfold GenR.fast_floor
+    simp only [e1, e2, he, gr_ok_bind, gr_err_bind]
+  · intro conv hc1 hc2 hF
+    have hin2 : (inp.drop sq).length = sB := by rw [List.length_drop, hinp]; omega
+    have hin2n : ∀ c ∈ inp.drop sq, c.length = n := fun c hc => hin c (List.mem_of_mem_drop hc)
+    unfold GenR.fast_floor
+    simp only [e1, e2, e3, hF, gr_ok_bind]
+    rw [gr_ff_loop (inp.drop sq) sB n bs invs (by omega) hin2 hin2n hbs hinv sB 0 conv (by omega) hc1 hc2,
+      gr_foldM_self (fun i ci => gr_ffComp (bs.getD i gr_dflt) (invs.getD i default) n ((inp.drop sq).getD i []) ci) sB 0 conv (by omega)]
+    have hcg : (List.range' 0 sB).mapM (fun i' => gr_ffComp (bs.getD i' gr_dflt) (invs.getD i' default) n ((inp.drop sq).getD i' []) (conv.getD i' []))
+        = (List.range' 0 sB).mapM (fun i => gr_ffComp (bs.getD i gr_dflt) (invs.getD i default) n (inp.getD (sq + i) []) (conv.getD i [])) := by
+      apply gr_mapM_congr
+      intro i _
+      have h : (inp.drop sq).getD i [] = inp.getD (sq + i) [] := by
+        rw [List.getD_eq_getElem?_getD, List.getElem?_drop, ← List.getD_eq_getElem?_getD]
+      rw [h]
+    rw [hcg]
+    cases (List.range' 0 sB).mapM (fun i => gr_ffComp (bs.getD i gr_dflt) (invs.getD i default) n (inp.getD (sq + i) []) (conv.getD i [])) with
+    | error e => rfl
+    | ok outs =>
+      simp only [gr_ok_bind]
+      rw [List.take_zero, List.nil_append, Nat.zero_add, List.drop_eq_nil_of_le (by omega), List.append_nil]
+
 end HC
